@@ -362,6 +362,42 @@ func (w *FileWatcher) hashFile(path string) (string, error) {
 	return hex.EncodeToString(h.Sum(nil)), nil
 }
 
+// fileStamp identifies the content of a file at one instant: its hash and its
+// modification time (a save that restores earlier bytes still moves the time).
+type fileStamp struct {
+	hash    string
+	modTime time.Time
+	ok      bool
+}
+
+func (w *FileWatcher) stampFile(path string) fileStamp {
+	info, err := os.Stat(path)
+	if err != nil {
+		return fileStamp{}
+	}
+	hash, err := w.hashFile(path)
+	if err != nil {
+		return fileStamp{}
+	}
+	return fileStamp{hash: hash, modTime: info.ModTime(), ok: true}
+}
+
+// settle tells the watcher what a load attempt of path has read. The attempt may
+// run long after the poll that detected the change (it queues behind an earlier,
+// slow load), so the recorded hash may describe content the attempt never saw.
+// When the file was the same before and after the attempt, that content is what
+// was attempted and is recorded; when it changed meanwhile, the record is dropped
+// so that the next poll reports the file again.
+func (w *FileWatcher) settle(path string, before, after fileStamp) {
+	w.mu.Lock()
+	defer w.mu.Unlock()
+	if before.ok && after.ok && before.hash == after.hash && before.modTime.Equal(after.modTime) {
+		w.fileHashes[path] = after.hash
+		return
+	}
+	delete(w.fileHashes, path)
+}
+
 // ========================================
 // Hot Reload Manager
 // ========================================
@@ -542,7 +578,14 @@ func (rm *ReloadManager) handleChanges(changes []FileChange) {
 	var bytecode []byte
 	var err error
 	if rm.compiler != nil {
+		var before fileStamp
+		if rm.watcher != nil {
+			before = rm.watcher.stampFile(mainFile)
+		}
 		bytecode, err = rm.compiler.CompileFile(mainFile)
+		if rm.watcher != nil {
+			rm.watcher.settle(mainFile, before, rm.watcher.stampFile(mainFile))
+		}
 		if err != nil {
 			rm.handleError(fmt.Errorf("compilation failed: %w", err))
 			rm.notifyReload(ReloadEvent{
